@@ -68,13 +68,13 @@ Lemma get_step st g' k0 r' e ov :
   step st (LGet g' ov) = Some (set_g st g' (mkG (GWait (ch e) k0) r')).
 Proof. intros Hg Ht. cbn [step]. rewrite Hg. unfold get_item. rewrite Ht. reflexivity. Qed.
 
-Lemma set_g_frame st g g' x y k k0 :
+Lemma set_g_frame st g g' x y k :
   nth_error (gs st) g' = Some x -> g' <> g ->
   inA k x = false -> inA k y = false -> inH k x = false -> inH k y = false ->
   nth_error (gs (set_g st g' y)) g = nth_error (gs st) g /\
-  cA (set_g st g' y) k = cA st k /\ cH (set_g st g' y) k = cH st k /\ k0 = k0.
+  cA (set_g st g' y) k = cA st k /\ cH (set_g st g' y) k = cH st k.
 Proof.
-  intros Hx Hne A1 A2 H1 H2. split; [|split; [|split; [|reflexivity]]].
+  intros Hx Hne A1 A2 H1 H2. split; [|split].
   - ssimp. rewrite (nth_error_upd _ _ _ _ _ Hx). rewrite (eqb_neq_false _ _ Hne). reflexivity.
   - pose proof (cA_set_g st g' x y k Hx) as E. rewrite A1, A2 in E. simpl in E. lia.
   - pose proof (cH_set_g st g' x y k Hx) as E. rewrite H1, H2 in E. simpl in E. lia.
@@ -90,9 +90,9 @@ Proof.
   assert (F : inA k (mkG (GWait c k0) r') = false /\ inH k (mkG (GHold k0) r') = false).
   { unfold inA, inH; simpl. rewrite (eqb_neq_false _ _ Hk). auto. }
   destruct F as [F1 F2].
-  destruct (set_g_frame st g g' _ (mkG (GHold k0) r') k 0 Hg Hne F1 eq_refl eq_refl F2) as (S1 & S2 & S3 & _).
+  destruct (set_g_frame st g g' _ (mkG (GHold k0) r') k Hg Hne F1 eq_refl eq_refl F2) as (S1 & S2 & S3).
   cbn [step]. destruct Hm as [Hm|Hm]; rewrite Hm, Hg, Nat.eqb_refl; eexists; (split; [reflexivity|]);
-    (split; [reflexivity|]); cnorm; rewrite ?gs_bump, ?cA_bump, ?cH_bump; auto.
+    (split; [reflexivity|]); cnorm; cbn [gs set_mgr]; rewrite ?gs_bump, ?cA_bump, ?cH_bump; auto.
 Qed.
 
 Lemma drain_send st g k r c k0 :
@@ -118,7 +118,7 @@ Proof.
     assert (F : inA k (mkG (GGetItem k0) r') = false /\ inA k (mkG (GWait c k0) r') = false).
     { unfold inA; simpl. rewrite (eqb_neq_false _ _ Hk). auto. }
     destruct F as [F1 F2].
-    destruct (set_g_frame st g g' _ (mkG (GWait c k0) r') k 0 Hg' Hne F1 F2 eq_refl eq_refl) as (E1 & E2 & E3 & _).
+    destruct (set_g_frame st g g' _ (mkG (GWait c k0) r') k Hg' Hne F1 F2 eq_refl eq_refl) as (E1 & E2 & E3).
     fold st1 in E1, E2, E3.
     assert (Hg1 : nth_error (gs st1) g' = Some (mkG (GWait c k0) r')).
     { unfold st1. ssimp. rewrite (nth_error_upd _ _ _ _ _ Hg'), Nat.eqb_refl. reflexivity. }
@@ -134,4 +134,111 @@ Proof.
     { econstructor; [exact S2|exact Logic.I|constructor]. }
     split; [repeat constructor|]. split; [exact M2|].
     split; [rewrite N2; exact Hg|]. split; lia.
+Qed.
+
+Lemma mgr_get_shape st ov st1 :
+  step st (LMgrGet ov) = Some st1 ->
+  gs st1 = gs st /\
+  (mgr st1 = MIdle \/ exists c k0, mgr st1 = MAcqSend c k0 \/ mgr st1 = MRelSend c k0).
+Proof.
+  cbn [step]. destruct (mgr st); try discriminate;
+    destruct (get_item k ov st) as [st1' e] eqn:Hgi;
+    destruct (get_item_measure _ _ _ _ _ Hgi) as (G & _).
+  - destruct (Nat.eqb (locks e) 0); intro H; injection H as <-; cbn [gs mgr set_mgr]; rewrite ?gs_bump; eauto 6.
+  - destruct (Nat.ltb 0 (locks e)); [destruct (Nat.ltb 0 (pred (locks e)))|]; intro H; injection H as <-;
+      cbn [gs mgr set_mgr]; rewrite ?gs_bump; eauto 6.
+Qed.
+
+Lemma drain st g k r :
+  Inv st -> nth_error (gs st) g = Some (mkG (GSendAcq k) r) -> cA st k = 0 -> cH st k = 0 ->
+  exists ls st', aruns st ls st' /\ Forall (indep g) ls /\ mgr st' = MIdle /\ Inv st' /\
+    nth_error (gs st') g = Some (mkG (GSendAcq k) r) /\ cA st' k = 0 /\ cH st' k = 0.
+Proof.
+  intros HI Hg HA HH.
+  assert (Send : forall st1, Inv st1 -> gs st1 = gs st ->
+            (mgr st1 = MIdle \/ exists c k0, mgr st1 = MAcqSend c k0 \/ mgr st1 = MRelSend c k0) ->
+            exists ls st', aruns st1 ls st' /\ Forall (indep g) ls /\ mgr st' = MIdle /\ Inv st' /\
+              nth_error (gs st') g = Some (mkG (GSendAcq k) r) /\ cA st' k = 0 /\ cH st' k = 0).
+  { intros st1 HI1 G [Hm|[c [k0 Hm]]].
+    - exists [], st1. unfold cA, cH. rewrite G.
+      split; [constructor|]. split; [constructor|]. split; [exact Hm|]. split; [exact HI1|].
+      split; [exact Hg|]. split; [exact HA|exact HH].
+    - destruct (drain_send st1 g k r c k0 HI1 Hm ltac:(rewrite G; exact Hg)
+                  ltac:(unfold cA; rewrite G; exact HA) ltac:(unfold cH; rewrite G; exact HH))
+        as [ls [st' (R & F & M & N & A' & H')]].
+      exists ls, st'. split; [exact R|]. split; [exact F|]. split; [exact M|].
+      split; [eapply aruns_inv; eauto|]. split; [exact N|]. split; assumption. }
+  destruct (mgr st) eqn:Hm.
+  - apply (Send st HI eq_refl). left; assumption.
+  - destruct (mgr_get_enabled st false) as [st1 S1]; [eauto|].
+    destruct (mgr_get_shape _ _ _ S1) as [G Sh].
+    destruct (Send st1 (inv_step _ _ _ S1 Logic.I HI) G Sh) as [ls [st' (R & F & Rest)]].
+    exists (LMgrGet false :: ls), st'. split; [econstructor; eauto; exact Logic.I|].
+    split; [constructor; [exact Logic.I|assumption]|assumption].
+  - apply (Send st HI eq_refl). right; eauto.
+  - destruct (mgr_get_enabled st false) as [st1 S1]; [eauto|].
+    destruct (mgr_get_shape _ _ _ S1) as [G Sh].
+    destruct (Send st1 (inv_step _ _ _ S1 Logic.I HI) G Sh) as [ls [st' (R & F & Rest)]].
+    exists (LMgrGet false :: ls), st'. split; [econstructor; eauto; exact Logic.I|].
+    split; [constructor; [exact Logic.I|assumption]|assumption].
+  - apply (Send st HI eq_refl). right; eauto.
+  - assert (S1 : step st (LPurge []) = Some (mkS (gs st) (tbl st) MIdle (pend st) (nextc st))).
+    { cbn [step]. rewrite Hm. reflexivity. }
+    assert (A1 : adm st (LPurge [])) by (cbn [adm]; intros ? ? ? []).
+    destruct (Send _ (inv_step _ _ _ S1 A1 HI) eq_refl (or_introl eq_refl)) as [ls [st' (R & F & Rest)]].
+    exists (LPurge [] :: ls), st'. split; [econstructor; eauto|].
+    split; [constructor; [exact Logic.I|assumption]|assumption].
+Qed.
+
+Lemma lock_free_key st g k r :
+  mgr st = MIdle -> nth_error (gs st) g = Some (mkG (GSendAcq k) r) -> lk st k = 0 ->
+  exists st', aruns st [LAcquire g; LMgrGet false; LGet g false; LGrant g] st' /\
+    nth_error (gs st') g = Some (mkG (GHold k) r).
+Proof.
+  intros Hm Hg Hz.
+  set (st1 := set_mgr (set_g st g (mkG (GGetItem k) r)) (MAcq k)).
+  assert (S1 : step st (LAcquire g) = Some st1) by (cbn [step]; rewrite Hm, Hg; reflexivity).
+  assert (Hg1 : nth_error (gs st1) g = Some (mkG (GGetItem k) r)).
+  { unfold st1. ssimp. rewrite (nth_error_upd _ _ _ _ _ Hg), Nat.eqb_refl. reflexivity. }
+  destruct (get_item k false st1) as [st1' e] eqn:Hgi.
+  destruct (get_item_spec _ _ _ _ _ Hgi) as (G1 & G2 & _ & _ & G5 & _ & _ & G8).
+  assert (He : locks e = 0).
+  { destruct G8 as [[H1 _]|[_ [-> _]]]; [|reflexivity].
+    unfold lk, lkt in Hz. change (tbl st1) with (tbl st) in H1. rewrite H1 in Hz. exact Hz. }
+  set (st2 := set_mgr st1' (MAcqSend (ch e) k)).
+  assert (S2 : step st1 (LMgrGet false) = Some st2).
+  { cbn [step]. change (mgr st1) with (MAcq k). cbv iota. rewrite Hgi, He. reflexivity. }
+  assert (Hg2 : nth_error (gs st2) g = Some (mkG (GGetItem k) r)) by (unfold st2; ssimp; rewrite G1; exact Hg1).
+  assert (Ht2 : tget (tbl st2) k = Some e) by exact G5.
+  pose proof (get_step st2 g k r e false Hg2 Ht2) as S3.
+  set (st3 := set_g st2 g (mkG (GWait (ch e) k) r)) in *.
+  assert (Hg3 : nth_error (gs st3) g = Some (mkG (GWait (ch e) k) r)).
+  { unfold st3. ssimp. rewrite (nth_error_upd _ _ _ _ _ Hg2), Nat.eqb_refl. reflexivity. }
+  set (st4 := set_mgr (bump S k (ch e) (set_g st3 g (mkG (GHold k) r))) MIdle).
+  assert (S4 : step st3 (LGrant g) = Some st4).
+  { cbn [step]. change (mgr st3) with (MAcqSend (ch e) k). cbv iota. rewrite Hg3, Nat.eqb_refl. reflexivity. }
+  exists st4. split.
+  - econstructor; [exact S1|exact Logic.I|]. econstructor; [exact S2|exact Logic.I|].
+    econstructor; [exact S3|exact Logic.I|]. econstructor; [exact S4|exact Logic.I|constructor].
+  - unfold st4. cbn [gs set_mgr]. rewrite gs_bump. ssimp.
+    rewrite (nth_error_upd _ _ _ _ _ Hg3), Nat.eqb_refl. reflexivity.
+Qed.
+
+(* From any state satisfying the invariant in which nobody holds or has
+   requested k, a goroutine blocked in `m.acquire <- k` reaches Hold k by a
+   schedule that uses no step of a holder or locker of another key. *)
+Theorem independent st g k r :
+  Inv st -> nth_error (gs st) g = Some (mkG (GSendAcq k) r) -> cA st k = 0 -> cH st k = 0 ->
+  exists ls st', aruns st ls st' /\ Forall (indep g) ls /\
+    nth_error (gs st') g = Some (mkG (GHold k) r).
+Proof.
+  intros HI Hg HA HH.
+  destruct (drain st g k r HI Hg HA HH) as [ls1 [st1 (R1 & F1 & M1 & I1 & G1 & A1 & H1)]].
+  assert (Hz : lk st1 k = 0).
+  { destruct I1 as [I1 _]. specialize (I1 k). unfold invk in I1. rewrite M1 in I1.
+    destruct I1 as [B _]. lia. }
+  destruct (lock_free_key st1 g k r M1 G1 Hz) as [st2 [R2 G2]].
+  exists (ls1 ++ [LAcquire g; LMgrGet false; LGet g false; LGrant g]), st2.
+  split; [eapply aruns_app; eauto|]. split; [|exact G2].
+  apply Forall_app. split; [exact F1|]. repeat constructor.
 Qed.
